@@ -918,7 +918,8 @@ impl Model for RingModel {
     }
     fn next_state(&self, st: &St, a: Act) -> Option<St> {
         let case = Case { sys: self.sys, kind: self.kind, cap: self.cap, start: st.start as usize, len: st.len as usize, acts: vec![a] };
-        guard::enter(&case.to_json().to_string());
+        // hand-formatted (this runs once per transition): same JSON as case.to_json()
+        guard::enter(&format!("{{\"sys\":\"{}\",\"kind\":\"{}\",\"cap\":{},\"start\":{},\"len\":{},\"actions\":[\"{}\"]}}", self.sys, self.kind.name(), self.cap, st.start, st.len, a.name()));
         self.transitions.fetch_add(1, Relaxed);
         match case.run() {
             Ok((s2, l2, fp)) => {
@@ -1032,7 +1033,7 @@ fn main() {
     }
     let maxcap = ctx.tier.pick(6, 12);
     ctx.rule(&format!(
-        "merged: stateright BFS to fixpoint, one model instance per (buffer, storage kind, capacity 1..={maxcap}; array/Vec/Box storage for capacities <=4), initial states = every valid raw state, alphabet = push/pop/get/get_mut/Index/IndexMut(i<=cap+1 resp. 2N+1)/iter/iter_mut/iter_loop/slices/slices_mut/drain.take(k)/extend/set_first/len.., each transition = the real operation on a buffer rebuilt with from_raw_parts over position-labelled storage between canaries vs VecDeque; a case is non-trivial and distinct by (state, action, observation fingerprint); plus scale probes: capacities 16,17,32,33,64,65 (thorough: also 31,63,100,255,256,257), every raw state an initial state, index-taking actions at indices 0,1,cap/2,cap-2..cap+1,2cap-1.. only"
+        "merged: stateright BFS to fixpoint, one model instance per (buffer, storage kind, capacity 1..={maxcap}; array/Vec/Box storage for capacities <=4), initial states = every valid raw state, alphabet = push/pop/get/get_mut/Index/IndexMut(i<=cap+1 resp. 2N+1)/iter/iter_mut/iter_loop/slices/slices_mut/drain.take(k)/extend/set_first/len.., each transition = the real operation on a buffer rebuilt with from_raw_parts over position-labelled storage between canaries vs VecDeque; a case is non-trivial and distinct by (state, action, observation fingerprint); plus scale probes: capacities 16,17,24,32,33,48,64,65,96,129,255 (thorough: also 31,63,80,100,127,128,160,192,256,257,1000), every raw state an initial state, index-taking actions at indices 0,1,cap/2,cap-2..cap+1,2cap-1.. only"
     ));
     ctx.rule("unmerged: DFS over every history (no relabelling, no merging) over {push,pop,get(i),index(i),iter,slices,drain(1),extend(2)} resp. {push,get(i),set_first(i),iter,iter_loop,slices} from every initial state of capacities <=3 (thorough <=4)");
     ctx.rule("constructors: from_raw_parts over every (cap 1..=9, start 0..=cap+1, len 0..=cap+1) accepts exactly the valid states and panics otherwise; From/from_full/FromIterator initial states");
@@ -1067,7 +1068,7 @@ fn main() {
     }
     // scale probes: a few much larger capacities (powers of two and their neighbours), every raw
     // state still an initial state, index-taking actions at structured indices only
-    let big: &[usize] = if ctx.thorough() { &[16, 17, 31, 32, 33, 63, 64, 65, 100, 255, 256, 257] } else { &[16, 17, 32, 33, 64, 65] };
+    let big: &[usize] = if ctx.thorough() { &[16, 17, 24, 31, 32, 33, 48, 63, 64, 65, 80, 96, 100, 127, 128, 129, 160, 192, 255, 256, 257, 1000] } else { &[16, 17, 24, 32, 33, 48, 64, 65, 96, 129, 255] };
     for sys in ["bounded", "fixed"] {
         for &cap in big {
             instances.push((sys, Kind::Window, cap));
@@ -1143,7 +1144,7 @@ fn main() {
     // soak probes
     let soak_steps = ctx.tier.pick(20_000, 200_000);
     for sys in ["bounded", "fixed"] {
-        for cap in [1usize, 3, 4, 7, 64] {
+        for cap in [1usize, 3, 4, 7, 48, 64] {
             guard::enter(&json!({"sys":sys,"kind":"vec","cap":cap,"note":"soak"}).to_string());
             ctx.add_evals(soak_steps as u64);
             ctx.add_transitions(soak_steps as u64);
